@@ -137,6 +137,8 @@ static char *dump (char *o) {
 }
 
 static char line[1024];
+static volatile uintptr_t requery_sink;
+static int requery_bad;   /* the queries re-asked after the last splice did not match the link fields */
 
 /* What nsync_dll_init_ is given as `container` (an arbitrary caller-chosen pointer that dll.c must never
    interpret): 0 = the element itself, 1 = one object shared by all elements, 2 = NULL, 3 = two owners. */
@@ -206,11 +208,29 @@ static void apply (op_t op) {
 		S->lst[op.b] = NULL;
 		for (i = 0; i != N; i++) if (S->where[i] == op.b) S->where[i] = op.a;
 		break;
-	case OP_SPLICE:
-		nsync_dll_splice_after_ (&S->el[op.b - 1], &S->el[op.d - 1]);
+	case OP_SPLICE: {
+		/* The way a CALLER uses the queries: ask, mutate, ask again — in one function, with the same pointer values
+		   (the list pointer of the destination does not change in a splice).  The answers after the mutation must
+		   be what the link fields say now, not what was answered before (a query declared `const` instead of
+		   `pure`, or cached in any other way, fails here while every link in memory is right). */
+		nsync_dll_list_ l = S->lst[op.a];
+		nsync_dll_element_ *pe = &S->el[op.b - 1], *ne = &S->el[op.d - 1];
+		nsync_dll_element_ *f0 = nsync_dll_first_ (l), *x0 = nsync_dll_next_ (l, pe), *v0 = nsync_dll_prev_ (l, ne), *t0 = nsync_dll_last_ (l);
+		int e0 = nsync_dll_is_empty_ (l);
+		requery_sink = (uintptr_t) f0 ^ (uintptr_t) x0 ^ (uintptr_t) v0 ^ (uintptr_t) t0 ^ (uintptr_t) e0;
+		nsync_dll_splice_after_ (pe, ne);
+		{
+			nsync_dll_element_ *f1 = nsync_dll_first_ (l), *x1 = nsync_dll_next_ (l, pe), *v1 = nsync_dll_prev_ (l, ne), *t1 = nsync_dll_last_ (l);
+			int e1 = nsync_dll_is_empty_ (l);
+			/* what memory says */
+			nsync_dll_element_ *mf = l == NULL ? NULL : *(nsync_dll_element_ *volatile *) &l->next;
+			nsync_dll_element_ *mx = pe == l ? NULL : *(nsync_dll_element_ *volatile *) &pe->next;
+			nsync_dll_element_ *mv = ne == mf ? NULL : *(nsync_dll_element_ *volatile *) &ne->prev;
+			requery_bad = (f1 != mf) || (x1 != mx) || (v1 != mv) || (t1 != l) || (e1 != (l == NULL));
+		}
 		S->lst[op.c] = NULL;
 		for (i = 0; i != N; i++) if (S->where[i] == op.c) S->where[i] = op.a;
-		break;
+		break; }
 	default:
 		break;
 	}
@@ -225,6 +245,7 @@ static void emit_op (op_t op, int depth) {
 	else if (op.kind == OP_SPLICE) o += sprintf (o, "splice %d %d %d %d => ", op.a, op.b, op.c, op.d);
 	else o += sprintf (o, "%s %d %d => ", op_name[op.kind], op.a, op.b);
 	o = dump (o);
+	if (requery_bad) { o += sprintf (o, " Q=stale-answer-after-splice"); requery_bad = 0; }
 	puts (line);
 	driver_top = depth + 1;
 	n_ops++;
